@@ -7,7 +7,7 @@ from __future__ import annotations
 
 import numpy as np
 
-from harness.common import bl, listl, ql, run_main, setup_jax, zl
+from harness.common import bl, listl, ql, release_jit, run_main, setup_jax, zl
 
 jax = setup_jax(x64=True)
 import equinox as eqx  # noqa: E402
@@ -115,6 +115,7 @@ def body(ck):
         ck.case_seen((idx, N, T, L, K) if (n_done >= 1 and (wrapped or N > 1)) else None, sample=j)
         ck.count(f"N={N}"); ck.count("key_free" if det else "stochastic"); ck.count("stored_dones", n_done); ck.count("wrapped" if wrapped else "not_wrapped")
         ck.count("box_actions" if asp[0] == "box" else "discrete_actions")
+        release_jit(idx, 20)
     ck.current_case = None
     ck.log(f"{len(cases)} cases")
     res = ck.run_coq_cases("C05Check", cases, funcs=("agree", "holds", "positions_ok"), shard=10,
